@@ -66,6 +66,7 @@ inductive Step
   | alias (n : Name) (s : Id)
   | schemaLookup (v : Id)    -- df.schema / printSchema: a random id names a temporary engine view
   | registerView (n : Name) (cols : List Name)  -- createOrReplaceTempView of a frame with these columns
+  | cacheCols (n : Name) (cols : List Name)     -- session.table(<permanent table>): the catalog caches the table's columns
   | transform                -- where / select / join / union / … : the copy keeps its ids
   | action                   -- collect / count / show / columns
   | failedAction             -- an action that raises
@@ -94,6 +95,10 @@ def applyStep (σ : Session) : Step → Session
     { σ with catalogObjects := n :: σ.catalogObjects.filter (· ≠ n),
              catalogCols := match colsOf σ.catalogCols n with
                | some _ => if viewSchemaKeptOnReregister then σ.catalogCols else setCols σ.catalogCols n cols
+               | none => setCols σ.catalogCols n cols }
+  | .cacheCols n cols =>
+    { σ with catalogCols := match colsOf σ.catalogCols n with
+               | some _ => σ.catalogCols          -- add_table without replace: already known
                | none => setCols σ.catalogCols n cols }
   | .transform => σ
   | .action => σ
@@ -221,10 +226,11 @@ def finalSession (σ : Session) : List Ev → Session
   | .step _ st :: r => finalSession (applyStep σ st) r
   | _ :: r => finalSession σ r
 
-/-- view names registered by the history's steps -/
+/-- view / table names whose catalog columns the history's steps set -/
 def foreignViews : List Ev → List Name
   | [] => []
   | .step false (.registerView n _) :: r => n :: foreignViews r
+  | .step false (.cacheCols n _) :: r => n :: foreignViews r
   | _ :: r => foreignViews r
 
 /-- P alone: the history's steps removed -/
